@@ -66,9 +66,11 @@ type jIT struct {
 	Price    int      `json:"price_2e-4"` // price in units of 1/16
 	Zones    []string `json:"zones"`
 	Reserved int      `json:"reserved_capacity,omitempty"`
-	Unavail  bool     `json:"one_offering_unavailable,omitempty"`
-	Huge     bool     `json:"hugepages,omitempty"`
-	HugeBig  bool     `json:"hugepages_exceed_memory,omitempty"`
+	// a second reserved offering whose reservation is used up: ReservationCapacity 0, flagged available or not
+	Exhausted string `json:"exhausted_reservation,omitempty"` // "" | available | unavailable
+	Unavail   bool   `json:"one_offering_unavailable,omitempty"`
+	Huge      bool   `json:"hugepages,omitempty"`
+	HugeBig   bool   `json:"hugepages_exceed_memory,omitempty"`
 	// offerings that override the type's capacity and/or overhead (computeAllocatable groups)
 	Overrides []jOverride `json:"override_offerings,omitempty"`
 }
@@ -319,6 +321,9 @@ func genWorld(r *kit.Rand, thorough bool) jWorld {
 		if r.Chance(1, 4) {
 			it.Reserved = r.Range(1, 2)
 		}
+		if r.Chance(1, 4) {
+			it.Exhausted = kit.Pick(r, []string{"available", "available", "unavailable"})
+		}
 		it.Unavail = r.Chance(1, 6)
 		it.Huge = r.Chance(1, 8)
 		it.HugeBig = it.Huge && r.Chance(1, 3)
@@ -536,6 +541,14 @@ func buildIT(j jIT, gate bool) *cloudprovider.InstanceType {
 			Requirements: scheduling.NewLabelRequirements(map[string]string{
 				v1.CapacityTypeLabelKey: v1.CapacityTypeReserved, corev1.LabelTopologyZone: j.Zones[0],
 				cloudprovider.ReservationIDLabel: "r-" + j.Name}),
+		})
+	}
+	if j.Exhausted != "" {
+		ofs = append(ofs, cloudprovider.Offering{
+			Available: j.Exhausted == "available", Price: price / 8, ReservationCapacity: 0,
+			Requirements: scheduling.NewLabelRequirements(map[string]string{
+				v1.CapacityTypeLabelKey: v1.CapacityTypeReserved, corev1.LabelTopologyZone: j.Zones[len(j.Zones)-1],
+				cloudprovider.ReservationIDLabel: "r0-" + j.Name}),
 		})
 	}
 	for _, ov := range j.Overrides {
